@@ -101,7 +101,7 @@ def block_mem_for(src_fn, ref_fn, proc_crs, target_blocks, jitter=1.0):
             ms = sa / ra if ra > sa else 1.
         else:
             ms = 1. if ra > sa else ra / sa
-        return pw.height * pw.width * 4 / 2 ** 20 / ms / target_blocks * jitter
+        return float(pw.height * pw.width * 4 / 2 ** 20 / ms / target_blocks * jitter)
 
 
 def compare(src_fn, ref_fn, proc_crs='auto', threads=1, max_block_mem=512, src_bands=None, ref_bands=None, force=False, **cfg):
